@@ -1,8 +1,10 @@
 """C13 — the power-spectrum estimate has the symmetries of the estimator.
 
 Metamorphic relations of calc_power against a base run (fresh copies of pos; TSC wraps in place):
-permutation of the particles, translation by whole cells with periodic wrap, thread count, pos2 = pos (cross == auto);
-N_mode / k and mu ranges / table shape are exact and identical for a *different* particle set on the same mesh/binning.
+permutation of the particles, translation by whole cells with periodic wrap, thread count, pos2 = pos (cross == auto),
+exchange of the x and y coordinates (the line of sight is z);
+N_mode / k and mu ranges / table shape are exact and identical for a *different* particle set on the same mesh/binning and for the
+other field precision.
 """
 import warnings
 
@@ -173,6 +175,14 @@ def run_case(d):
     # cross == auto
     _compare(base, _run(ps, d, pos, w, d['nthread'], pos2=pos, w2=w), 'cross=auto', floor=floor)
     _compare(base, _run(ps, d, pos, w, d['nthread'], alias=True), 'cross=auto:same-array-object', floor=floor)
+    # the line of sight is z: exchanging the x and y coordinates of every particle is a symmetry of the estimator (title clause;
+    # the statement's list names four relations, this fifth one distinguishes the axes - e.g. an interlacing phase or a window
+    # that is wrong along one axis only is invisible to the other four)
+    _compare(base, _run(ps, d, np.ascontiguousarray(pos[:, [1, 0, 2]]), w, d['nthread']), 'xy-swap', floor=floor)
+    # bookkeeping is a function of the mesh and the binning only: not of the particles (below), nor of the precision the field is
+    # painted in
+    other_dt = dict(d, fdtype='f8' if d['fdtype'] == 'f4' else 'f4')
+    _compare(base, _run(ps, other_dt, pos, w, d['nthread']), 'other-field-dtype', floats=False)
     # bookkeeping independent of the particles
     q, wq = _particles(dict(d, n=max(1, d['n'] // 2 + 1), dist='uniform'), seed_shift=17)
     _compare(base, _run(ps, d, q, wq, d['nthread']), 'other-particles', floats=False)
